@@ -550,6 +550,23 @@ func oracle(ops, outs []string) *corr.Violation {
 	}
 	var sr float64
 	var br uint64
+	// rewards held by every provider (stake pool reward + its delegates' rewards), to measure what a payment credits
+	held := map[string]*big.Int{}
+	charges := map[string]float64{}
+	sumRewards := func(fields []string) *big.Int { // "<spReward> p <r>*"
+		t := new(big.Int)
+		for _, x := range fields {
+			if x == "p" {
+				continue
+			}
+			v, ok := new(big.Int).SetString(x, 10)
+			if !ok {
+				break
+			}
+			t.Add(t, v)
+		}
+		return t
+	}
 	for i, op := range ops {
 		f := strings.Fields(op)
 		if len(f) == 0 {
@@ -561,6 +578,16 @@ func oracle(ops, outs []string) *corr.Violation {
 				sr, _ = f64ops.FromHex(f[1])
 				br, _ = strconv.ParseUint(f[2], 10, 64)
 				_ = br
+			}
+		case "node":
+			if outs[i] == "ok" {
+				t, _ := new(big.Int).SetString(f[6], 10)
+				for _, p := range f[7:] {
+					v, _ := new(big.Int).SetString(strings.Split(p, ":")[1], 10)
+					t.Add(t, v)
+				}
+				held[f[1]+f[2]] = t
+				charges[f[1]+f[2]], _ = f64ops.FromHex(f[5])
 			}
 		case "pay":
 			ok := strings.HasPrefix(outs[i], "ok ")
@@ -592,7 +619,39 @@ func oracle(ops, outs []string) *corr.Violation {
 			if new(big.Int).Add(a[1], a[3]).Cmp(total) != 0 {
 				return mk("fee-split-not-exact", fmt.Sprintf("op %d %q: miner fees %s + sharder fees %s != block fees %s", i, op, a[1], a[3], total))
 			}
-			// miner reward + sharder reward = block reward (observed through the real MultFloat64 in impl); checked as a sum here
+			// no token is created: what the providers and their delegates are credited never exceeds what was assigned
+			// (amounts below 2^53 and charges in [0,1]: beyond that C10's known rounding defect applies)
+			assigned := new(big.Int)
+			small := true
+			for k := 0; k < 4; k++ {
+				assigned.Add(assigned, a[k])
+				small = small && a[k].BitLen() <= 53
+			}
+			credited := new(big.Int)
+			for k := 9; k < len(o); k++ {
+				if o[k] != "M" && o[k] != "S" {
+					continue
+				}
+				key := map[string]string{"M": "m", "S": "s"}[o[k]] + o[k+1]
+				end := k + 2
+				for end < len(o) && o[end] != "M" && o[end] != "S" {
+					end++
+				}
+				now := sumRewards(o[k+2 : end])
+				if prev, ok := held[key]; ok {
+					if now.Cmp(prev) < 0 {
+						return mk("provider-rewards-decreased", fmt.Sprintf("op %d %q: %s held %s, now %s", i, op, key, prev, now))
+					}
+					credited.Add(credited, new(big.Int).Sub(now, prev))
+				}
+				held[key] = now
+				if c := charges[key]; !(c >= 0 && c <= 1) {
+					small = false
+				}
+			}
+			if small && credited.Cmp(assigned) > 0 {
+				return mk("more-credited-than-assigned", fmt.Sprintf("op %d %q: providers and delegates credited %s, fees+reward assigned %s", i, op, credited, assigned))
+			}
 			if o[2] != f[3] {
 				return mk("last-round-not-recorded", fmt.Sprintf("op %d %q: LastRound %s", i, op, o[2]))
 			}
